@@ -1,25 +1,13 @@
 #!/bin/bash
-# tools/recheck_seeds.sh [seed-id ...]  — run the owning check against kept seeds again
-# (git -C /repo apply, ./check <id> quick, git -C /repo checkout -- .); evidence is restored.
+# tools/recheck_seeds.sh [seed-id ...] — run the owning check against kept seeds again, through
+# tools/altcheck.sh (a scratch worktree of /repo with the patch applied; /repo is not touched).
 cd /verif
 SEEDS="$@"; [ -z "$SEEDS" ] && SEEDS=$(ls seeded | grep -E "^C[0-9]+-[0-9]+$")
 for sid in $SEEDS; do
     prop=${sid%%-*}
-    [ -z "$(git -C /repo status --porcelain)" ] || { echo "/repo not clean"; exit 2; }
     # a seed made against an older tree may have been re-created for the current one
     P=/verif/seeded/$sid/patch.diff; [ -f /verif/seeded/$sid/patch_rebased.diff ] && P=/verif/seeded/$sid/patch_rebased.diff
-    git -C /repo apply $P || { echo "$sid: patch does not apply"; continue; }
-    cp evidence/$prop.json /tmp/recheck-ev.json 2>/dev/null
     extra=""; [ "$sid" = "C07-4" ] && extra="C14"
-    res=""
-    for c in $prop $extra; do
-        [ "$c" != "$prop" ] && cp evidence/$c.json /tmp/recheck-ev2.json
-        ./check $c quick >/tmp/recheck.out 2>&1; rc=$?
-        [ "$c" != "$prop" ] && cp /tmp/recheck-ev2.json evidence/$c.json
-        res="$res $c:exit=$rc:$(grep -E '^  signature:' /tmp/recheck.out | head -1 | sed 's/^  signature: //' | cut -c1-80)"
-    done
-    cp /tmp/recheck-ev.json evidence/$prop.json 2>/dev/null
-    git -C /repo checkout -q -- . ; git -C /repo clean -fdq
-    echo "$sid$res"
+    res=$(tools/altcheck.sh $P $prop $extra | tr '\n' ' ')
+    echo "$sid $res"
 done
-rm -f /tmp/recheck.out /tmp/recheck-ev.json /tmp/recheck-ev2.json
